@@ -34,24 +34,37 @@ def pool_part(run, prop="C02", env=None, on_res=None, wanted_or=None):
     """the waiter pool every slow path draws from (common.c nsync_waiter_new_/free_/waiter_destroy + its spinlock), which the Mu.tla
     harness runs atomically: Pool.tla, every transition replayed on the real functions at the granularity of the spinlock's operations"""
     import shutil
-    exe = build("h_pool")
     d = os.path.join(WORK, "pool"); os.makedirs(d, exist_ok=True)
     shutil.copy(os.path.join(SPEC, "Pool.tla"), d)
-    N, F = "new", "free"
-    cfgs = [("p2", [[N, F], [N, F]], 4), ("p2n", [[N, N, F, F], [N, F, N, F]], 6), ("p3", [[N, F], [N, F], [N, F]], 6)]
+    N, F, X = "new", "free", "exit"
+    cfgs = [("p2", [[N, F], [N, F]], 4), ("p2n", [[N, N, F, F], [N, F, N, F]], 6), ("p3", [[N, F], [N, F], [N, F]], 6),
+            # the waiter destructor has run but the thread goes on using nsync (thread-local destructors run in no particular order): its
+            # old waiter may meanwhile be another thread's
+            ("p2e", [[N, F, X, N, F], [N, F, N, F]], 5)]
     if run.tier == "thorough":
-        cfgs += [("p3n", [[N, F], [N, N, F, F], [N, F]], 6), ("p2x", [[N, F, N, N, F, F], [N, N, F, N, F, F]], 6)]
+        cfgs += [("p3n", [[N, F], [N, N, F, F], [N, F]], 6), ("p2x", [[N, F, N, N, F, F], [N, N, F, N, F, F]], 6), ("p2ee", [[N, F, X, N, F], [N, F, X, N, F]], 6),
+                 ("p3e", [[N, F, X, N, F], [N, F], [N, N, F, F]], 6)]
+    # both flavours of common.c: the per-thread waiter kept by the platform layer (platform/gcc_no_tls, as in every other harness) and in the
+    # thread-local variable waiter_for_thread (HAVE_THREAD_LOCAL, as in the default builds)
+    variants = [("c", build("h_pool"))]
+    try:
+        variants.append(("ctls", build("h_pool", flavour="ctls")))
+    except SystemExit:
+        run.note("the thread-local flavour of common.c could not be built from this tree (platform/gcc/compiler.h); only the platform-layer flavour was replayed")
+    graphs = {}
+    all_cfgs = [(name + ("" if fl == "c" else "@tls"), progs, maxw, fl, exe) for fl, exe in variants for name, progs, maxw in cfgs]
     wanted = {"Exclusive", "FreeIsFree", "NoDuplicates", "OneSlotEach", "NoLoss", "NoStuck"}
-    for name, progs, maxw in cfgs:
-        open(os.path.join(d, "MC_%s.tla" % name), "w").write("---- MODULE MC_%s ----\nEXTENDS Pool\nMCProg == %s\n====\n" % (name, muconf.tla_val(progs)))
-        cfg = os.path.join(d, "MC_%s.cfg" % name)
+    for name, progs, maxw, fl, exe in all_cfgs:
+        mname = name.replace("@", "_")
+        open(os.path.join(d, "MC_%s.tla" % mname), "w").write("---- MODULE MC_%s ----\nEXTENDS Pool\nMCProg == %s\n====\n" % (mname, muconf.tla_val(progs)))
+        cfg = os.path.join(d, "MC_%s.cfg" % mname)
         open(cfg, "w").write("SPECIFICATION SpecU\nCONSTANTS\n N = %d\n Prog <- MCProg\n MaxW = %d\n defaultInitValue = 0\nCONSTRAINT InitPrint\nACTION_CONSTRAINT Edge\nCHECK_DEADLOCK FALSE\n" % (len(progs), maxw))
-        g, info = tlcgraph.run_tlc_graph(os.path.join(d, "MC_%s.tla" % name), cfg, workers=4, cwd=d)
+        g, info = tlcgraph.run_tlc_graph(os.path.join(d, "MC_%s.tla" % mname), cfg, workers=4, cwd=d)
         if not info["ok"]:
             raise ToolFailure("TLC failed on Pool/%s: %s" % (name, "\n".join(info["log"][-30:])))
         tours = tlcgraph.build_tours(g)
-        sched = os.path.join(d, "%s.sched" % name)
-        init = "harness=h_pool MaxW=%d progs=%s" % (maxw, ";".join("".join(o[0] for o in p) for p in progs))
+        sched = os.path.join(d, "%s.sched" % mname)
+        init = "harness=h_pool %sMaxW=%d progs=%s" % ("" if fl == "c" else "flavour=%s " % fl, maxw, ";".join("".join("x" if o == "exit" else o[0] for o in p) for p in progs))
         steps = tlcgraph.write_schedule(sched, g, tours, init, obs_fmt=tlcgraph.fmt_obs_noghost)
         res = run_harness(exe, ["replay", sched, REPLAYS], env=dict({"VERIF_PROP": prop}, **(env or {})))
         if on_res:
@@ -67,6 +80,19 @@ def pool_part(run, prop="C02", env=None, on_res=None, wanted_or=None):
         for v in res["viols"]:
             if wanted_or is None or v[0] in wanted_or:
                 run.violation("%s|%s|Pool/%s" % (v[0], v[1], name), v[4], v[5])
+        # every schedule with at most two preemptions, at the granularity of plain accesses (VERIF_PLAIN): the check-then-set windows of the
+        # flag words are a few instructions wide, which random schedules hit by luck only (always for the 2-thread configurations, after a
+        # divergence for the others)
+        if len(progs) == 2 or res["mismatch"]:
+            pf = os.path.join(d, "%s.init" % mname)
+            open(pf, "w").write("T 1 %s\nE\n" % init)
+            rp = run_harness(exe, ["pb", pf, "2", "150000", REPLAYS], env=dict({"VERIF_PROP": prop, "VERIF_PLAIN": "1"}, **(env or {})))
+            run.add("evaluations", rp["stats"].get("tours", 0))
+            run.cov.setdefault("preemption_bounded", []).append({"config": "Pool/" + name, "bound": 2, "schedules": rp["stats"].get("tours", 0), "violations": len(rp["viols"])})
+            for v in rp["viols"]:
+                if wanted_or is None or v[0] in wanted_or:
+                    run.violation("%s|%s|Pool/%s preemption-bounded" % (v[0], v[1], name), v[4], v[5])
+            os.unlink(pf)
         if prop != "C02":
             os.unlink(sched)
             continue
